@@ -209,6 +209,13 @@ def outcome(fn, arg):
         return ("exc", type(ex).__name__)
 
 
+def raw_outcome(fn, arg):
+    try:
+        return ("ok", fn(arg))
+    except BaseException as ex:  # noqa: BLE001
+        return ("exc", type(ex).__name__)
+
+
 def check_case(ctx: runner.Ctx, case):  # noqa: C901, PLR0912, PLR0915
     if case.get("mode") == "implicit":
         return check_implicit(ctx, case)
@@ -279,9 +286,12 @@ def check_case(ctx: runner.Ctx, case):  # noqa: C901, PLR0912, PLR0915
         ctx.count("dumper_not_creatable")
     else:
         for v in case["values"]:
-            oa, ob = outcome(da, codec.build(v, ea)), outcome(db, codec.build(v, ea))
+            ra, rb = raw_outcome(da, codec.build(v, ea)), raw_outcome(db, codec.build(v, ea))
             ctx.count("dumper_probes")
-            if oa != ob and not tspec.contains(a_spec, "set", "frozenset"):
+            # the element order of a dumped set is not significant (and not reproducible: hash(nan) is address based)
+            same = ra[0] == rb[0] and (ra[0] != "ok" or tspec.dumped_eq(a_spec, ra[1], rb[1], ea))
+            oa, ob = ra, rb
+            if not same:
                 ctx.violation("equivalent_hints_dump_differently", ("+".join(sorted({s[0] for s in steps})),), case,
                               f"{head} value={v!r}: a -> {oa!r}; b -> {ob!r}")
     # predicates: a hint used as predicate matches locations carrying either spelling
